@@ -51,16 +51,9 @@ def run(ctx):
 
 def row_rule(ctx, fv, who, root=None, rule="C04.F"):
     """row = values.join(delim) + newline"""
-    rows = [(n, ft) for n, ft in formats_in(fv, root)
-            if len(ft[1]) == 2 and ft[1][0][0] == "arg" and ft[1][1] == ("lit", "\n")]
-    if not rows:
-        for c, hv in helper_views(ctx, fv):
-            rows.extend((n, ft) for n, ft in formats_in(hv)
-                        if len(ft[1]) == 2 and ft[1][0][0] == "arg" and ft[1][1] == ("lit", "\n"))
-    good = [1 for n, ft in rows if ft[2][0][0] == "call" and ft[2][0][1].endswith("::join")
-            and ft[2][0][3] == SF("delim")]
+    rows = find_rows(fv, root, ctx)
+    good = [1 for n, j, d in rows if d == SF("delim")]
     ctx.check(rule, "%s:row" % who, len(rows) >= 1 and len(good) == len(rows),
               "row = values.join(self.delim) + \"\\n\"",
               "row text is not `values.join(&self.delim)` followed by a newline (found %s)"
-              % [fmt_template(ft) + " <- " + show(ft[2][0]) for n, ft in rows],
-              line_of(rows[0][0]) if rows else fv.fn["sp"])
+              % [show(j) for n, j, d in rows], line_of(rows[0][0]) if rows else fv.fn["sp"])
